@@ -38,7 +38,9 @@ package lsm
 //@   ensures [covers-immutables] lsm != nil ==> (forall i int :: 0 <= i && i < len(lsm.immutables) && lsm.immutables[i] != nil ==> result >= lsm.immutables[i].maxVersion)
 //@   loop 1 invariant [seen-immutables] lsm != nil && (lsm.memTable != nil ==> max >= lsm.memTable.maxVersion) && (forall i int :: 0 <= i && i <= rangeindex && i < len(lsm.immutables) && lsm.immutables[i] != nil ==> max >= lsm.immutables[i].maxVersion)
 
-// C36 (flush half): a WAL segment that held entries is deleted by flush only after the
+// C36 (flush half): flush deletes a WAL segment only when canRemoveWalSegment agreed (the
+// segment is shared with raft groups, also when the memtable is empty), and one that held
+// entries only after the
 // manifest edit installing its SST was logged successfully AND canRemoveWalSegment agreed;
 // on an error before that nothing is deleted. Ghost state records, at each RemoveSegment
 // call, what had been established.
@@ -124,6 +126,7 @@ package lsm
 //@   requires [fresh-observation] !sawValidEntry
 //@   requires [has-level-0] lm != nil && len(lm.levels) > 0 && immutable != nil
 //@   ensures [entries-removed-only-after-install] walRemovals > old(walRemovals) && removalSawEntry ==> removalSawEdits > old(editsLogged) && removalSawCan
+//@   ensures [never-removed-without-permission] walRemovals > old(walRemovals) ==> removalSawCan
 //@   ensures [at-most-one-removal] walRemovals <= old(walRemovals) + 1
 //@   ensures [error-before-install-removes-nothing] err != nil && editsLogged == old(editsLogged) && sawValidEntry ==> walRemovals == old(walRemovals)
 //@   loop 1 invariant [building] walRemovals == old(walRemovals) && editsLogged == old(editsLogged) && sawValidEntry
